@@ -309,6 +309,12 @@ enum Outcome {
 }
 type CallFut = Pin<Box<dyn Future<Output = Outcome>>>;
 
+fn via_clone() -> bool {
+    use std::sync::atomic::{AtomicUsize, Ordering};
+    static N: AtomicUsize = AtomicUsize::new(0);
+    N.fetch_add(1, Ordering::Relaxed) % 2 == 1
+}
+
 enum Svc {
     Rustls(accept::rustls_0_23::AcceptorService),
     Openssl(accept::openssl::AcceptorService),
@@ -320,6 +326,9 @@ impl Svc {
             "rustls" => {
                 let mut a = accept::rustls_0_23::Acceptor::new(tls.rustls_server.clone());
                 a.set_handshake_timeout(timeout);
+                // a server clones its factories (one per socket, again for a restarted worker): every other service
+                // is built from a clone of a clone of the configured acceptor
+                let a = if via_clone() { a.clone().clone() } else { a };
                 let f = <accept::rustls_0_23::Acceptor as ServiceFactory<GatedIo>>::new_service(
                     &a,
                     (),
@@ -329,6 +338,7 @@ impl Svc {
             "openssl" => {
                 let mut a = accept::openssl::Acceptor::new(tls.ossl_acceptor.clone());
                 a.set_handshake_timeout(timeout);
+                let a = if via_clone() { a.clone().clone() } else { a };
                 let f =
                     <accept::openssl::Acceptor as ServiceFactory<GatedIo>>::new_service(&a, ());
                 Svc::Openssl(drive(f, 4).expect("new_service").expect("init"))
